@@ -1,127 +1,241 @@
-/* Model of the libc output functions used by the tool (printf, fprintf, putchar, puts-less).  The format
- * string of every real call site is interpreted: literal bytes and every byte of every %s / %c argument go
- * through out_byte(), which (C18) asserts that the byte is printable ASCII or one of the tool's own \n \r \t.
- * Numeric conversions are consumed with the right argument type and reported as tokens (kind, flags, width,
- * precision, value) without being rendered to digits (digits are printable by construction; C19 compares
- * tokens).  lha_arch_vasprintf is modelled by a bounded formatter so that the real safe_output() sees the
- * real formatted string. */
+/* Model of the libc output functions used by the tool (printf family, putchar/puts/fputs, fwrite).
+ *
+ * The (concrete) format string of every real call site is interpreted.  Literal bytes, every byte of every
+ * %s / %c argument and every padding byte go through out_byte(), which
+ *   - (C18, out_check != 0) asserts that the byte is printable ASCII or one of the tool's own \n \r \t,
+ *   - (C19, OUT_RECORD) appends a 'b' token to the token stream.
+ * Numeric conversions are consumed with the right argument type and reported as ONE token (kind, flags,
+ * width, precision, value) without being rendered to digits: digits, sign, '.' and blank/zero padding are
+ * printable by construction (libc trusted) and C19 compares tokens, not digits.
+ *   kind : 'b' byte | 'd' (%d %i, signed) | 'u' | 'x' | 'f' (value = bits of the float passed)
+ *   flags: 1 = '-', 2 = '0';  width 0 = none;  prec 0xff = none.  Length modifiers (l, ll) only select the
+ *   argument type; %i == %d.
+ * lha_arch_vasprintf is modelled by the same interpreter rendering into a static buffer (only %s, %c and %x
+ * are rendered there), so the real safe_output() sees - and rewrites - the real formatted string.
+ *
+ * Usage: #include "out_model.h", then OUT_REDIRECT_BEGIN-style defines (see out_redirect.h) around the
+ * #include of the real sources, so that the model itself and the CHECK macros keep the real libc names. */
 #ifndef OUT_MODEL_H
 #define OUT_MODEL_H
 #include "verif.h"
 #include <stdarg.h>
 #include <stdio.h>
+#include <stddef.h>
 
 #ifndef OUT_MAXSTR
-#define OUT_MAXSTR 8          /* longest %s argument that is followed to its end */
+#define OUT_MAXSTR 40         /* longest %s argument that is followed to its end (longest literal: the prompt) */
 #endif
 #ifndef OUT_TOKENS
-#define OUT_TOKENS 96
+#define OUT_TOKENS 64
 #endif
-typedef struct { u8 kind; u8 flags; u8 width; u8 prec; u64 value; } OutTok;   /* kind: 'b' byte, 'd','u','x','f' */
+#ifndef OUT_RECORD
+#define OUT_RECORD 0
+#endif
+#ifndef VAS_MAX
+#define VAS_MAX 64
+#endif
+
+typedef struct { u8 kind; u8 flags; u8 width; u8 prec; u64 value; } OutTok;
+#if OUT_RECORD
 static OutTok out_tok[OUT_TOKENS];
-static unsigned out_n;
-static unsigned out_unprintable;     /* ghost: number of bytes outside the allowed set */
-static int out_check = 1;
+#endif
+static unsigned out_n;               /* tokens emitted */
+static unsigned out_bytes;           /* byte tokens emitted (literal, %s, %c, padding) */
+static unsigned out_unprintable;     /* ghost: number of byte tokens outside the allowed set */
+static unsigned out_data_bytes;      /* bytes written with fwrite (member data dumped by 'p': outside C18) */
+static int out_check = 1;            /* C18 assertion on/off */
+
+enum { OUT_LIT = 0, OUT_STR = 1, OUT_CHR = 2, OUT_PAD = 3 };
 
 static void out_token(u8 kind, u8 flags, u8 width, u8 prec, u64 value)
 {
+#if OUT_RECORD
 	if (out_n < OUT_TOKENS) {
 		out_tok[out_n].kind = kind; out_tok[out_n].flags = flags; out_tok[out_n].width = width;
 		out_tok[out_n].prec = prec; out_tok[out_n].value = value;
 	}
+#else
+	(void) kind; (void) flags; (void) width; (void) prec; (void) value;
+#endif
 	++out_n;
 }
-static void out_byte(u8 c)
+
+static int out_printable(u8 c) { return (c >= 0x20 && c <= 0x7e) || c == '\n' || c == '\r' || c == '\t'; }
+
+static void out_byte(u8 c, int origin)
 {
-	int ok = (c >= 0x20 && c <= 0x7e) || c == '\n' || c == '\r' || c == '\t';
+	int ok = out_printable(c);
 	if (!ok) ++out_unprintable;
-	if (out_check) CHECK(ok, "every output byte is printable ASCII (or the tool's own LF/CR/TAB)");
+	if (out_check) {
+		if (origin == OUT_STR) CHECK(ok, "C18: every byte of a %s argument written by printf/fprintf/puts is printable ASCII (0x20..0x7E)");
+		else if (origin == OUT_CHR) CHECK(ok, "C18: every %c / putchar argument written is printable ASCII (0x20..0x7E)");
+		else CHECK(ok, "C18: every literal byte written is printable ASCII or the tool's own LF/CR/TAB");
+	}
+	++out_bytes;
 	out_token('b', 0, 0, 0, c);
 }
 
-static int out_vformat(const char *fmt, va_list ap)
+/* sink: buf == NULL -> the output stream; else the formatted string of lha_arch_vasprintf */
+typedef struct { char *buf; unsigned n, cap; } OutSink;
+
+static void out_put(OutSink *k, u8 c, int origin)
+{
+	if (k->buf == NULL) { out_byte(c, origin); ++k->n; return; }
+	CHECK(k->n + 1 < k->cap, "output model: formatted string fits the vasprintf buffer");
+	if (k->n + 1 < k->cap) k->buf[k->n++] = (char) c;
+}
+
+static unsigned out_strlen(const char *s)
+{
+	unsigned k = 0;
+	while (k < OUT_MAXSTR && s[k] != '\0') ++k;
+	CHECK(s[k] == '\0', "output model: %s argument within the modelled string bound");
+	return k;
+}
+
+static void out_pad(OutSink *k, unsigned from, unsigned width)
+{
+	unsigned i;
+	for (i = from; i < width; ++i) out_put(k, ' ', OUT_PAD);
+}
+
+static void out_str(OutSink *k, const char *s, u8 flags, u8 width, u8 prec)
+{
+	unsigned i, len = out_strlen(s);
+	if (prec != 0xff && len > prec) len = prec;
+	if (!(flags & 1)) out_pad(k, len, width);
+	for (i = 0; i < len; ++i) out_put(k, (u8) s[i], OUT_STR);
+	if (flags & 1) out_pad(k, len, width);
+}
+
+static void out_hex(OutSink *k, u8 flags, u8 width, unsigned v)
+{
+	/* only used when a hex conversion is rendered into the vasprintf buffer */
+	unsigned nd = 1, i;
+	for (i = 1; i < 8; ++i) if ((v >> (4 * i)) != 0) nd = i + 1;
+	if (!(flags & 1)) for (i = nd; i < width; ++i) out_put(k, (flags & 2) ? '0' : ' ', OUT_PAD);
+	for (i = 0; i < 8; ++i) if (8 - i <= nd) out_put(k, (u8) "0123456789abcdef"[(v >> (4 * (7 - i))) & 15], OUT_LIT);
+	if (flags & 1) out_pad(k, nd, width);
+}
+
+/* Fetching variadic arguments.  goto-cc (CBMC 6.11) does not apply the default argument promotions to the
+ * arguments of a variadic call: a uint8_t / uint16_t / float argument is stored in an object of its own type, and
+ * va_arg(ap, int) / va_arg(ap, double) would read past it.  Under CBMC the argument is therefore read with the
+ * width of the object that was passed (1- and 2-byte integers are taken as unsigned: the tool only passes
+ * uint8_t / uint16_t / char values that are cast to u8 anyway); natively va_arg does the job. */
+#ifdef __CPROVER__
+static long out_slot_int(void *p)
+{
+	__CPROVER_size_t sz = __CPROVER_OBJECT_SIZE(p);
+	if (sz == 1) return (long) *(u8 *) p;
+	if (sz == 2) return (long) *(u16 *) p;
+	if (sz == 4) return (long) *(int *) p;
+	return *(long *) p;
+}
+static double out_slot_double(void *p)
+{
+	if (__CPROVER_OBJECT_SIZE(p) == 4) return (double) *(float *) p;
+	return *(double *) p;
+}
+#define OUT_SLOT(ap)            (*(void **) (ap))
+#define OUT_ARG_INT(ap, v)      ((v) = out_slot_int(OUT_SLOT(ap)), (void) va_arg(ap, int))
+#define OUT_ARG_LONG(ap, v)     ((v) = out_slot_int(OUT_SLOT(ap)), (void) va_arg(ap, int))
+#define OUT_ARG_DOUBLE(ap, v)   ((v) = out_slot_double(OUT_SLOT(ap)), (void) va_arg(ap, int))
+#else
+#define OUT_ARG_INT(ap, v)      ((v) = (long) va_arg(ap, int))
+#define OUT_ARG_LONG(ap, v)     ((v) = va_arg(ap, long))
+#define OUT_ARG_DOUBLE(ap, v)   ((v) = va_arg(ap, double))
+#endif
+
+static int out_vformat(OutSink *k, const char *fmt, va_list ap)
 {
 	unsigned i = 0;
+	int exact = 1;
 	while (fmt[i] != '\0') {
-		if (fmt[i] != '%') { out_byte((u8) fmt[i]); ++i; continue; }
+		u8 flags = 0, width = 0, prec = 0xff, lng = 0;
+		if (fmt[i] != '%') { out_put(k, (u8) fmt[i], OUT_LIT); ++i; continue; }
 		++i;
-		if (fmt[i] == '%') { out_byte('%'); ++i; continue; }
-		{
-			u8 flags = 0, width = 0, prec = 0xff, lng = 0;
-			while (fmt[i] == '-' || fmt[i] == '0') { flags |= (fmt[i] == '-') ? 1 : 2; ++i; }
-			while (fmt[i] >= '0' && fmt[i] <= '9') { width = (u8) (width * 10 + (fmt[i] - '0')); ++i; }
-			if (fmt[i] == '.') { ++i; prec = 0; while (fmt[i] >= '0' && fmt[i] <= '9') { prec = (u8) (prec * 10 + (fmt[i] - '0')); ++i; } }
-			while (fmt[i] == 'l') { ++lng; ++i; }
-			switch (fmt[i]) {
-			case 's': {
-				const char *s = va_arg(ap, const char *);
-				unsigned k, len = 0;
-				for (k = 0; k < OUT_MAXSTR && s[k] != '\0'; ++k) ++len;
-				CHECK(s[len] == '\0', "output model: %s argument within the modelled string bound");
-				if (!(flags & 1)) for (k = len; k < width; ++k) out_byte(' ');
-				for (k = 0; k < len; ++k) out_byte((u8) s[k]);
-				if (flags & 1) for (k = len; k < width; ++k) out_byte(' ');
-				break;
-			}
-			case 'c': out_byte((u8) va_arg(ap, int)); break;
-			case 'd': case 'i':
-				if (lng) out_token('d', flags, width, prec, (u64) va_arg(ap, long));
-				else out_token('d', flags, width, prec, (u64) (long) va_arg(ap, int));
-				break;
-			case 'u':
-				if (lng) out_token('u', flags, width, prec, (u64) va_arg(ap, unsigned long));
-				else out_token('u', flags, width, prec, (u64) va_arg(ap, unsigned int));
-				break;
-			case 'x':
-				out_token('x', flags, width, prec, (u64) va_arg(ap, unsigned int));
-				break;
-			case 'f': {
-				double d = va_arg(ap, double);
-				float f = (float) d;
-				u32 bits;
-				__builtin_memcpy(&bits, &f, 4);
-				out_token('f', flags, width, prec, bits);
-				break;
-			}
-			default:
-				CHECK(0, "output model: conversion used by the tool is modelled");
-			}
-			++i;
+		if (fmt[i] == '%') { out_put(k, '%', OUT_LIT); ++i; continue; }
+		while (fmt[i] == '-' || fmt[i] == '0') { flags |= (fmt[i] == '-') ? 1 : 2; ++i; }
+		while (fmt[i] >= '0' && fmt[i] <= '9') { width = (u8) (width * 10 + (fmt[i] - '0')); ++i; }
+		if (fmt[i] == '.') { ++i; prec = 0; while (fmt[i] >= '0' && fmt[i] <= '9') { prec = (u8) (prec * 10 + (fmt[i] - '0')); ++i; } }
+		while (fmt[i] == 'l') { ++lng; ++i; }
+		switch (fmt[i]) {
+		case 's': out_str(k, va_arg(ap, const char *), flags, width, prec); break;
+		case 'c':
+			if (!(flags & 1)) out_pad(k, 1, width);
+			{ long c; OUT_ARG_INT(ap, c); out_put(k, (u8) c, OUT_CHR); }
+			if (flags & 1) out_pad(k, 1, width);
+			break;
+		case 'd': case 'i': {
+			long sv; u64 v;
+			if (lng) OUT_ARG_LONG(ap, sv); else { OUT_ARG_INT(ap, sv); sv = (long) (int) sv; }
+			v = (u64) sv;
+			CHECK(k->buf == NULL, "output model: %d inside a safe_printf format is not rendered");
+			out_token('d', flags, width, prec, v); exact = 0;
+			break;
 		}
+		case 'u': {
+			long sv; u64 v;
+			if (lng) OUT_ARG_LONG(ap, sv); else { OUT_ARG_INT(ap, sv); sv = (long) (unsigned int) sv; }
+			v = (u64) sv;
+			CHECK(k->buf == NULL, "output model: %u inside a safe_printf format is not rendered");
+			out_token('u', flags, width, prec, v); exact = 0;
+			break;
+		}
+		case 'x': {
+			long sv; u64 v;
+			if (lng) OUT_ARG_LONG(ap, sv); else { OUT_ARG_INT(ap, sv); sv = (long) (unsigned int) sv; }
+			v = (u64) sv;
+			if (k->buf == NULL) { out_token('x', flags, width, prec, v); exact = 0; }
+			else out_hex(k, flags, width, (unsigned) v);
+			break;
+		}
+		case 'f': {
+			double d;
+			union { float f; u32 b; } cv;
+			OUT_ARG_DOUBLE(ap, d);
+			cv.f = (float) d;
+			CHECK(k->buf == NULL, "output model: %f inside a safe_printf format is not rendered");
+			out_token('f', flags, width, prec, cv.b); exact = 0;
+			break;
+		}
+		default:
+			CHECK(0, "output model: conversion used by the tool is modelled");
+		}
+		++i;
 	}
-	return 0;
+	/* number of bytes written, when it is known without rendering digits (the list headings use it) */
+	return exact ? (int) k->n : (int) k->n + 1;
 }
-int verif_printf(const char *fmt, ...) { va_list ap; int r; va_start(ap, fmt); r = out_vformat(fmt, ap); va_end(ap); return r; }
-int verif_fprintf(FILE *f, const char *fmt, ...) { va_list ap; int r; (void) f; va_start(ap, fmt); r = out_vformat(fmt, ap); va_end(ap); return r; }
-int verif_putchar(int c) { out_byte((u8) c); return c; }
-int verif_fflush(FILE *f) { (void) f; return 0; }
 
-/* lha_arch_vasprintf: only literal text and %s occur in the tool's safe_printf/safe_fprintf calls */
-#ifndef VAS_MAX
-#define VAS_MAX 48
-#endif
+static OutSink out_stream_sink(void) { OutSink k; k.buf = NULL; k.n = 0; k.cap = 0; return k; }
+
+int verif_printf(const char *fmt, ...) { va_list ap; int r; OutSink k = out_stream_sink(); va_start(ap, fmt); r = out_vformat(&k, fmt, ap); va_end(ap); return r; }
+int verif_fprintf(FILE *f, const char *fmt, ...) { va_list ap; int r; OutSink k = out_stream_sink(); (void) f; va_start(ap, fmt); r = out_vformat(&k, fmt, ap); va_end(ap); return r; }
+int verif_vprintf(const char *fmt, va_list ap) { OutSink k = out_stream_sink(); return out_vformat(&k, fmt, ap); }
+int verif_vfprintf(FILE *f, const char *fmt, va_list ap) { OutSink k = out_stream_sink(); (void) f; return out_vformat(&k, fmt, ap); }
+int verif_putchar(int c) { out_byte((u8) c, OUT_CHR); return c; }
+int verif_fputc(int c, FILE *f) { (void) f; out_byte((u8) c, OUT_CHR); return c; }
+int verif_fputs(const char *s, FILE *f) { OutSink k = out_stream_sink(); (void) f; out_str(&k, s, 0, 0, 0xff); return 1; }
+int verif_puts(const char *s) { OutSink k = out_stream_sink(); out_str(&k, s, 0, 0, 0xff); out_byte('\n', OUT_LIT); return 1; }
+int verif_fflush(FILE *f) { (void) f; return 0; }
+/* fwrite is only used by 'lha p' to dump member data: deliberately outside C18 (counted, not checked) */
+size_t verif_fwrite(const void *p, size_t sz, size_t n, FILE *f) { (void) p; (void) f; out_data_bytes += (unsigned) (sz * n); return n; }
+
+/* lha_arch_vasprintf: same interpreter, rendering into a static buffer that the real safe_output() rewrites */
 static char vas_buf[VAS_MAX];
-static unsigned vas_live;
+static unsigned vas_live, vas_calls;
 int lha_arch_vasprintf(char **result, char *fmt, va_list args)
 {
-	unsigned i = 0, o = 0, k;
+	OutSink k;
 	CHECK(vas_live == 0, "output model: one formatted string alive at a time");
-	while (fmt[i] != '\0') {
-		if (fmt[i] == '%' && fmt[i + 1] == 's') {
-			const char *s = va_arg(args, const char *);
-			for (k = 0; k < OUT_MAXSTR && s[k] != '\0'; ++k) { CHECK(o < VAS_MAX - 1, "output model: formatted string fits"); vas_buf[o++] = s[k]; }
-			CHECK(s[k] == '\0', "output model: %s argument within the modelled string bound");
-			i += 2;
-		} else {
-			CHECK(fmt[i] != '%', "output model: safe_printf formats contain only %s conversions");
-			CHECK(o < VAS_MAX - 1, "output model: formatted string fits");
-			vas_buf[o++] = fmt[i++];
-		}
-	}
-	vas_buf[o] = '\0';
-	vas_live = 1;
+	k.buf = vas_buf; k.n = 0; k.cap = VAS_MAX;
+	(void) out_vformat(&k, fmt, args);
+	vas_buf[k.n] = '\0';
+	vas_live = 1; ++vas_calls;
 	*result = vas_buf;
-	return (int) o;
+	return (int) k.n;
 }
 void verif_free_vas(void *p) { if (p == (void *) vas_buf) vas_live = 0; }
 #endif
